@@ -155,7 +155,8 @@ def one_process_per_task(ctx: Ctx):
     th = vals.get('thunk')
     th_x = expand_locals(g, rd, th, g.primary(c)) if th is not None else None
     okk = fv is not None and same_expr(vals.get('future_id'), ast.parse(f'{fv}.id', mode='eval').body) \
-        and th_x is not None and same_expr(th_x, ast.parse(f'{sn}.{ex.pending}[{fv}]', mode='eval').body) \
+        and th_x is not None and (same_expr(th_x, ast.parse(f'{sn}.{ex.pending}[{fv}]', mode='eval').body)
+                                  or same_expr(th_x, ast.parse(f'{sn}.{ex.pending}.pop({fv})', mode='eval').body)) \
         and same_expr(vals.get('result_queue'), ast.parse(f'{sn}._result_queue', mode='eval').body)
     yield ctx.ob('C16.ONE-PROCESS-PER-TASK', bool(okk), fn, c, 'child receives this future\'s id, its own thunk and the executor\'s result queue',
                  '' if okk else f'the child is started with {dict((k, src(v)) for k, v in vals.items())}: not this future\'s own id/thunk/result queue')
@@ -179,17 +180,27 @@ def fork_memory(ctx: Ctx):
     fr = ctx.P.cls('runners.process.ForkProcessRunner')
     init = fr.methods.get('__init__')
     sn = init.self_name
+    # the registry: the module-level name the fork runner's __init__ stores a RunnerMemory into under self.uuid
+    REG = None
+    for n in walk_local(init.node):
+        if isinstance(n, ast.Assign) and isinstance(n.targets[0], ast.Subscript) and isinstance(n.targets[0].value, ast.Name) \
+                and n.targets[0].value.id in init.module.consts:
+            REG = n.targets[0].value.id
+    if REG is None:
+        yield ctx.ob('C16.FORK-MEMORY', False, init, init.node, 'fork memory registry',
+                     'ForkProcessRunner.__init__ does not register its context/storage/results in a module-level registry', construct='no-registry')
+        return
     stores = []
     dels = []
     for f in ctx.P.all_functions():
         if not f.module.name.endswith('runners.process'):
             continue
         for n in walk_local(f.node):
-            if isinstance(n, ast.Assign) and isinstance(n.targets[0], ast.Subscript) and dotted(n.targets[0].value) == '_RUNNER_FORK_MEMORY':
+            if isinstance(n, ast.Assign) and isinstance(n.targets[0], ast.Subscript) and dotted(n.targets[0].value) == REG:
                 stores.append((f, n))
-            if isinstance(n, ast.Delete) and any(isinstance(t, ast.Subscript) and dotted(t.value) == '_RUNNER_FORK_MEMORY' for t in n.targets):
+            if isinstance(n, ast.Delete) and any(isinstance(t, ast.Subscript) and dotted(t.value) == REG for t in n.targets):
                 dels.append((f, n))
-            if isinstance(n, ast.Call) and isinstance(n.func, ast.Attribute) and n.func.attr in ('pop', 'clear') and dotted(n.func.value) == '_RUNNER_FORK_MEMORY':
+            if isinstance(n, ast.Call) and isinstance(n.func, ast.Attribute) and n.func.attr in ('pop', 'clear') and dotted(n.func.value) == REG:
                 dels.append((f, n))
     ok = len(stores) == 1 and stores[0][0].qualname == init.qualname
     if ok:
@@ -212,9 +223,9 @@ def fork_memory(ctx: Ctx):
         calls = [c for c in calls_in(ffn.node) if isinstance(c.func, ast.Name) and c.func.id == '_subprocess_func']
         if calls:
             kws = {k.arg: expand_locals(g, rd, k.value, g.primary(calls[0])) for k in calls[0].keywords}
-            okr = same_expr(kws.get('results_map'), ast.parse('_RUNNER_FORK_MEMORY[uuid].results_map', mode='eval').body) \
-                and same_expr(kws.get('storage'), ast.parse('_RUNNER_FORK_MEMORY[uuid].storage', mode='eval').body) \
-                and same_expr(kws.get('filtered_context'), ast.parse('task.filter_context(_RUNNER_FORK_MEMORY[uuid].context)', mode='eval').body) \
+            okr = same_expr(kws.get('results_map'), ast.parse(f'{REG}[uuid].results_map', mode='eval').body) \
+                and same_expr(kws.get('storage'), ast.parse(f'{REG}[uuid].storage', mode='eval').body) \
+                and same_expr(kws.get('filtered_context'), ast.parse(f'task.filter_context({REG}[uuid].context)', mode='eval').body) \
                 and same_expr(kws.get('task'), ast.parse('task', mode='eval').body)
     yield ctx.ob('C16.FORK-MEMORY', okr, ffn, ffn.node if ffn else None, 'child reads context/storage/results_map from the memory of its own runner (uuid)',
                  '' if okr else 'the forked child does not take storage, results map and (filtered) context from _RUNNER_FORK_MEMORY[uuid]')
@@ -667,11 +678,16 @@ def one_block(ctx: Ctx):
     fm = dr.nested.get('format_many')
     okf = False
     if fm is not None:
-        from ..engine import pure_bool_body
-        rets = [n for n in walk_local(fm.node) if isinstance(n, ast.Return)]
         ifs = [n for n in walk_local(fm.node) if isinstance(n, ast.If)]
         okf = len(ifs) == 1 and equivalent(formula_of(ctx, fm, ifs[0].test), formula_of(ctx, fm, 'multi_cardinality')) \
             and any(isinstance(s, ast.Return) and isinstance(s.value, ast.Constant) and 'many' in s.value.value for s in ifs[0].body)
+    else:
+        # inlined form: a conditional expression '"many" ' if <info>.multi_cardinality else ''
+        for n in walk_local(dr.node):
+            if isinstance(n, ast.IfExp) and isinstance(n.body, ast.Constant) and isinstance(n.body.value, str) and 'many' in n.body.value \
+                    and isinstance(n.orelse, ast.Constant) and n.orelse.value == '' \
+                    and isinstance(n.test, ast.Attribute) and n.test.attr == 'multi_cardinality':
+                okf = True
     yield ctx.ob('C20.ONE-BLOCK', okf, fm or dr, (fm or dr).node, '"many" rendered exactly for multi-cardinality relationships', '' if okf else
                  'the "many" marker is not rendered exactly when multi_cardinality is true', construct='many')
     dt = ctx.P.func('diagram.diagram_task_type')
